@@ -13,16 +13,19 @@ NOTES = ("Contract-based deductive verification (pyvc). Every claimed check is a
 
 PROPERTIES = {
     "C05": {
-        "claim": "Proof, for the RTP/RTCP wire parsers under contract (unpack_remb_fci, unpack_header_extensions, "
-                 "unpack_packets_lost, RtcpReceiverInfo.parse, RtcpSenderInfo.parse, is_rtcp), that for every byte "
-                 "string they return or raise ValueError only (no struct.error/IndexError) and every loop terminates "
-                 "(decreases clauses). Reduced: the dispatch layer, SCTP, codec payload parsers are not under contract.",
+        "claim": "Proof, for the RTP/RTCP wire parsers under contract (rtp.py: unpack_remb_fci, unpack_header_extensions, "
+                 "unpack_packets_lost, RtcpReceiverInfo.parse, RtcpSenderInfo.parse, is_rtcp; rtcsctptransport.py: "
+                 "decode_params, the DATA/SACK/FORWARD-TSN/INIT/SHUTDOWN/params chunk constructors, the three RFC 6525 "
+                 "parameter parsers; codecs/vpx.py: VpxPayloadDescriptor.parse), that for every byte string they return or "
+                 "raise ValueError only (no struct.error/IndexError/TypeError) and every loop terminates (decreases "
+                 "clauses). Reduced: the dispatch layer and the remaining parsers are not under contract.",
         "note": "Only the listed parser functions are decided; the rest of the receive path (RtpPacket.parse, "
-                "RtcpPacket.parse, SCTP chunk parsers, h264/vpx descriptors, transports) is outside this check. "
+                "RtcpPacket.parse and its per-type parsers, parse_packet, H264PayloadDescriptor.parse, transports, "
+                "_receive_chunk) is outside this check. "
                 "Trusted: pyvc engine and prelude axioms for struct/bytes.",
         "design_ref": "DESIGN.md 4.5, 9",
         "trusted_base": COMMON,
-        "not_decided": ["RtpPacket.parse / RtcpPacket.parse dispatch", "SCTP chunk parsing", "codec payload descriptors",
+        "not_decided": ["RtpPacket.parse / RtcpPacket.parse dispatch", "parse_packet", "H264PayloadDescriptor.parse",
                         "memory/time proportionality", "transport stays up afterwards"],
     },
     "C07": {
@@ -38,7 +41,21 @@ PROPERTIES = {
         "not_decided": ["RtpPacket.serialize/parse round trip", "RtcpPacket compound round trip", "NACK set equality (F-11)",
                         "RTX wrap/unwrap", "HeaderExtensionsMap.get/set (F-4, F-10)"],
     },
-    "C08": {"claim": "tbd", "note": "tbd", "trusted_base": COMMON},
+    "C08": {
+        "claim": "Proof of the SCTP chunk and parameter codecs function by function: DATA chunk serialise/parse layout and "
+                 "the round trip DataChunk(parse(bytes(x))) == x on every field for all in-range values and all user-data "
+                 "lengths (all four padding cases); SACK, FORWARD-TSN, SHUTDOWN, INIT constructors decode exactly the "
+                 "RFC 4960/3758 field layout (gap and duplicate lists element by element) and reject truncated bodies with "
+                 "ValueError under an exact stated condition; decode_params terminates and RFC 6525 parameter parsers decode "
+                 "exactly. Reduced: parse_packet/serialize_packet and the CRC-32c burst claim are not under contract.",
+        "note": "crc32c is an external C function and the chunk-type dispatch table is not modelled, so whole-packet round "
+                "trip, byte-identical re-serialisation of SACK/INIT/param chunks and checksum rejection are NOT decided. "
+                "Chunk.__bytes__ (generic header + padding) and encode_params are proved for shape only.",
+        "design_ref": "DESIGN.md 4.8, 9",
+        "trusted_base": COMMON,
+        "not_decided": ["parse_packet / serialize_packet (crc32c external)", "single-burst checksum claim",
+                        "encode_params/decode_params value round trip", "SackChunk.__bytes__ / body properties of Init, ForwardTsn"],
+    },
     "C15": {
         "claim": "Proof that every integer bitrate in [0, 2^64) with up to 255 32-bit SSRCs is encodable by pack_remb_fci "
                  "and decodes to the listed SSRCs exactly, with mantissa*2^exp <= bitrate. Reduced: rate.py (estimator, "
@@ -48,6 +65,21 @@ PROPERTIES = {
         "design_ref": "DESIGN.md 4.15, 9",
         "trusted_base": COMMON,
         "not_decided": ["rate.py: RemoteBitrateEstimator, AimdRateControl (F-18), OveruseDetector, RateCounter"],
+    },
+    "C16": {
+        "claim": "Proof for VP8: every payload produced by Vp8Encoder._packetize is 1..1300 bytes for any frame buffer and any "
+                 "15-bit picture id, only the first packet carries the partition-start bit, the loop terminates; "
+                 "VpxPayloadDescriptor.parse decodes S, PID and the 7/15-bit picture id exactly, returns a suffix of its "
+                 "input, raises ValueError exactly on the stated truncation condition; parse(bytes(d)).picture_id == "
+                 "d.picture_id for all 15-bit values. Reduced: H.264 packetisation and the byte-exact reassembly are not "
+                 "under contract.",
+        "note": "H264Encoder._packetize_fu_a uses math.ceil over a real quotient and _packetize_stap_a/_packetize use "
+                "iterators (itertools.tee, next) outside the engine's subset; 'concatenating the depacketised payloads "
+                "reproduces the buffer' is not stated (needs a ghost concatenation the engine lacks).",
+        "design_ref": "DESIGN.md 4.16, 9",
+        "trusted_base": COMMON,
+        "not_decided": ["H.264 FU-A / STAP-A packetisation and depacketisation", "VP8 payload concatenation == frame buffer",
+                        "_split_bitstream"],
     },
     "C17": {
         "claim": "Proof that uint16/uint32 add, gt, gte implement RFC 1982 serial arithmetic, and lemmas over those "
@@ -61,17 +93,34 @@ PROPERTIES = {
         "not_decided": ["the schedule-level statement 'delivers exactly the same under the same network schedule'"],
     },
     "C18": {
-        "claim": "Proof that the receiver-report wire layer never fails for in-range figures: clamp_packets_lost saturates "
-                 "to the signed 24-bit range, pack_packets_lost/unpack_packets_lost are inverse on it, and "
-                 "RtcpReceiverInfo.__bytes__ produces the 24-byte RFC 3550 block for all field values within their widths.",
-        "note": "Reduced to the serialisation layer plus StreamStatistics units listed in the evidence file.",
+        "claim": "Proof over StreamStatistics with a class invariant established by __init__ and preserved by every method: "
+                 "packets are counted exactly; base/highest sequence and wrap cycles follow RFC 3550 A.1 in serial order "
+                 "(no 'away from the wrap' precondition); packets_lost == clamp24(extended highest - base + 1 - received); "
+                 "fraction_lost is the A.3 formula over the interval and always fits 8 bits; jitter follows the A.8 "
+                 "recurrence with differences modulo 2^32 and always fits 32 bits; plus the wire layer "
+                 "(clamp/pack/unpack 24-bit loss, RtcpReceiverInfo.__bytes__ for all in-range figures).",
+        "note": "The report-construction loop in RTCRtpReceiver._run_rtcp (async, private dict state) is not under "
+                "contract, so F-20 (highest_sequence sent without wrap cycles) is not decided by this check. time.time() "
+                "is an unconstrained real; int() of it is floor.",
         "design_ref": "DESIGN.md 4.18, 9",
         "trusted_base": COMMON,
         "not_decided": ["report construction loop in RTCRtpReceiver._run_rtcp (F-20)"],
     },
 }
 
+_NOT_BUILT = ("not claimed: the function contracts planned for it in DESIGN.md section 4 were not built in the time "
+              "available, so nothing decides it; no check is registered rather than a weaker technique substituted")
 NOT_APPLICABLE = {
+    "C01": _NOT_BUILT + " (SCTP association: _send/_receive_data_chunk/InboundStream; whole-history part is outside contracts anyway)",
+    "C02": "liveness over fault histories is not expressible as a function contract; the planned necessary-condition contracts (flight-size accounting, F-14) were not built",
+    "C03": _NOT_BUILT + " (negotiation algebra); 'the session actually connects' is outside contracts (DESIGN 4.3)",
+    "C04": "OpenSSL handshake, key export and libsrtp are external C code; the repo-owned fingerprint comparison contract was not built (DESIGN 4.4)",
+    "C06": _NOT_BUILT + " (_maybe_abandon/_update_advanced_peer_ack_point/prune_chunks; F-15 stays unreported by any check)",
     "C09": "SDP parse/serialise is string/regex code; no contract within reach of the installed solvers decides the round trip (DESIGN 4.9)",
+    "C10": _NOT_BUILT + " (JitterBuffer ring invariant, DESIGN 4.10 / Appendix A)",
+    "C11": _NOT_BUILT + " (NackGenerator, _retransmit, RTX); closed-loop recovery is outside contracts (DESIGN 4.11)",
+    "C12": _NOT_BUILT + " (RtpRouter; dict/set-heavy code, DESIGN 4.12)",
+    "C13": _NOT_BUILT + " (DCEP codec, _setReadyState, bufferedAmount accounting; F-16 stays unreported by any check)",
+    "C14": _NOT_BUILT + " (JSEP projection of setLocal/RemoteDescription, DESIGN 4.14)",
     "C19": "termination and absence of leftover tasks/threads across coroutine interleavings is not expressible as a function contract (DESIGN 4.19)",
 }
